@@ -330,6 +330,7 @@ class _Inliner:
     def __init__(self, modname, tree, inv):
         self.modname, self.tree, self.inv = modname, tree, inv
         self.count = 0
+        self.inlined_helpers = {}      # id(helper node) -> number of call sites it was inlined at
 
     def new_helpers(self):
         """{(kind, owner, name): FunctionDef} for functions not in the inventory.
@@ -420,7 +421,7 @@ class _Inliner:
                     refs += 1
                 elif kind in ("function", "closure") and isinstance(x, ast.Name) and x.id == name:
                     refs += 1
-            if refs == 0 and self.count:
+            if refs == 0 and self.inlined_helpers.get(id(node)):
                 for parent in ast.walk(self.tree):
                     for fld in ("body", "orelse", "finalbody"):
                         lst = getattr(parent, fld, None)
@@ -508,6 +509,7 @@ class _Inliner:
         out = prefix + new
         for s in out:
             ast.fix_missing_locations(s)
+        self.inlined_helpers[id(helper)] = self.inlined_helpers.get(id(helper), 0) + 1
         return out or [ast.copy_location(ast.Pass(), st)]
 
     # -- expression-bodied helpers anywhere in an expression
@@ -538,6 +540,7 @@ class _Inliner:
                 if prefix:
                     return node
                 outer.count += 1
+                outer.inlined_helpers[id(helper)] = outer.inlined_helpers.get(id(helper), 0) + 1
                 return ast.copy_location(_Renamer(mapping).visit(copy.deepcopy(e)), node)
         # only the expressions of this statement itself, not nested statement blocks
         for fld, val in ast.iter_fields(st):
@@ -707,6 +710,130 @@ def _replace_node(root, old, new):
     return False
 
 
+# ------------------------------------------------------------------ which parameters can a repo function change? (by function name, over all modules)
+
+_CLASS_CTORS = set()
+PARAM_MUTATION = None        # {function name: set of parameter names that may be changed in place, "*" = unknown}, filled by summarize_mutation()
+_BUILTIN_READONLY = PURE_CALLS | {"len", "str", "repr", "int", "float", "list", "tuple", "sorted", "min", "max", "sum", "any", "all", "enumerate", "zip", "range",
+                                  "print", "format", "ord", "chr", "abs", "iter", "next", "reversed", "set", "frozenset", "dict", "getattr", "hasattr"}
+
+
+def summarize_mutation(trees):
+    """fixpoint over all functions of all modules: a parameter may be changed if the function stores into it / calls a mutator on it /
+    hands it to a callee that may change the corresponding parameter (unknown callees are assumed to)"""
+    global PARAM_MUTATION
+    fns = {}
+    for tree in trees:
+        for n in ast.walk(tree):
+            if isinstance(n, FUNC):
+                fns.setdefault(n.name, []).append(n)
+            elif isinstance(n, ast.ClassDef):
+                # calling a class runs its __init__ (or an inherited one: unknown -> conservative)
+                inits = [m for m in n.body if isinstance(m, FUNC) and m.name == "__init__"]
+                if inits:
+                    fns.setdefault(n.name, []).extend(inits)
+                    _CLASS_CTORS.add(n.name)
+    summ = {name: set() for name in fns}
+
+    def params_of(fn):
+        a = fn.args
+        ps = [p.arg for p in a.posonlyargs + a.args]
+        return ps
+
+    changed = True
+    rounds = 0
+    while changed and rounds < 8:
+        changed = False
+        rounds += 1
+        for name, defs in fns.items():
+            for fn in defs:
+                ps = params_of(fn)
+                pset = set(ps)
+                for x in _walk_local(fn):
+                    hit = set()
+                    if isinstance(x, (ast.Subscript, ast.Attribute)) and isinstance(x.ctx, (ast.Store, ast.Del)):
+                        b_ = x.value
+                        while isinstance(b_, (ast.Subscript, ast.Attribute)):
+                            b_ = b_.value
+                        if isinstance(b_, ast.Name) and b_.id in pset:
+                            hit.add(b_.id)
+                    elif isinstance(x, ast.Call):
+                        f_ = x.func
+                        nm = f_.id if isinstance(f_, ast.Name) else (f_.attr if isinstance(f_, ast.Attribute) else None)
+                        if isinstance(f_, ast.Attribute) and nm in MUTATORS and isinstance(f_.value, ast.Name) and f_.value.id in pset:
+                            hit.add(f_.value.id)
+                        if nm in _BUILTIN_READONLY or (isinstance(f_, ast.Attribute) and nm and nm.startswith(("is_", "has_", "starts", "ends", "isnumeric", "isalpha", "isdigit"))):
+                            continue
+                        callee_defs = fns.get(nm)
+                        for k, a_ in enumerate(x.args):
+                            if isinstance(a_, ast.Name) and a_.id in pset:
+                                if not callee_defs:
+                                    hit.add(a_.id)          # unknown callee
+                                else:
+                                    for cd in callee_defs:
+                                        cps = params_of(cd)
+                                        off = 1 if (cps[:1] == ["self"] and (isinstance(f_, ast.Attribute) or nm in _CLASS_CTORS)) else 0
+                                        if k + off >= len(cps) or cps[k + off] in summ[nm] or cd.args.vararg:
+                                            hit.add(a_.id)
+                        for kw in x.keywords:
+                            if isinstance(kw.value, ast.Name) and kw.value.id in pset:
+                                if not callee_defs or kw.arg is None or kw.arg in summ.get(nm, ()):
+                                    hit.add(kw.value.id)
+                    new = hit - summ[name]
+                    if new:
+                        summ[name] |= new
+                        changed = True
+    PARAM_MUTATION = summ
+    return summ
+
+
+def _call_may_change(call, operand_names):
+    """may this call change an object bound to one of operand_names (handed as argument or used as receiver)?"""
+    f_ = call.func
+    nm = f_.id if isinstance(f_, ast.Name) else (f_.attr if isinstance(f_, ast.Attribute) else None)
+    if nm in _BUILTIN_READONLY or (isinstance(f_, ast.Attribute) and nm and nm.startswith(("is_", "has_", "starts", "ends", "isnumeric", "isalpha", "isdigit"))):
+        return False
+    if isinstance(f_, ast.Attribute) and any(isinstance(n_, ast.Name) and n_.id in operand_names for n_ in ast.walk(f_.value)):
+        return True               # a method of the object itself
+    summ = PARAM_MUTATION
+    for k, a_ in enumerate(call.args):
+        names = {n_.id for n_ in ast.walk(a_) if isinstance(n_, ast.Name)} & operand_names
+        if not names:
+            continue
+        if summ is None or nm not in summ or not isinstance(a_, ast.Name):
+            return True
+        ok_all = True
+        for cd_params in _PARAMS_BY_NAME.get(nm, []):
+            off = 1 if (cd_params[:1] == ["self"] and (isinstance(f_, ast.Attribute) or nm in _CLASS_CTORS)) else 0
+            if k + off >= len(cd_params) or cd_params[k + off] in summ[nm]:
+                ok_all = False
+        if not ok_all or not _PARAMS_BY_NAME.get(nm):
+            return True
+    for kw in call.keywords:
+        names = {n_.id for n_ in ast.walk(kw.value) if isinstance(n_, ast.Name)} & operand_names
+        if names and (summ is None or nm not in summ or kw.arg is None or kw.arg in summ[nm]):
+            return True
+    return False
+
+
+_PARAMS_BY_NAME = {}
+
+
+def prepare(trees):
+    """called once per repository load, before the modules are normalised"""
+    _PARAMS_BY_NAME.clear()
+    _CLASS_CTORS.clear()
+    for tree in trees:
+        for n in ast.walk(tree):
+            if isinstance(n, FUNC):
+                _PARAMS_BY_NAME.setdefault(n.name, []).append([p.arg for p in n.args.posonlyargs + n.args.args])
+            elif isinstance(n, ast.ClassDef):
+                for m in n.body:
+                    if isinstance(m, FUNC) and m.name == "__init__":
+                        _PARAMS_BY_NAME.setdefault(n.name, []).append([p.arg for p in m.args.posonlyargs + m.args.args])
+    summarize_mutation(trees)
+
+
 # ------------------------------------------------------------------ N6 named values (aliases of stable pure expressions)
 
 PURE_DOTTED = {"os.path.join", "os.path.dirname", "os.path.basename", "os.path.exists"}
@@ -857,6 +984,13 @@ def _named_values(fn, self_unstable=None):
                 last = max((k for k in range(i + 1, len(blk)) if any(id(x) in use_ids for x in ast.walk(blk[k]))), default=i)
                 rhs_names = {x.id for x in ast.walk(st.value) if isinstance(x, ast.Name)}
                 rhs_attrs = {x.attr for x in ast.walk(st.value) if isinstance(x, ast.Attribute)}
+                content_names = set()
+                for x in ast.walk(st.value):
+                    if isinstance(x, ast.Subscript):
+                        content_names |= {n_.id for n_ in ast.walk(x.value) if isinstance(n_, ast.Name)}
+                    elif isinstance(x, ast.Call) and isinstance(x.func, ast.Name) and x.func.id == "len":
+                        content_names |= {n_.id for a_ in x.args for n_ in ast.walk(a_) if isinstance(n_, ast.Name)}
+                content_dependent = bool(content_names)
                 dirty = False
                 for k in range(i + 1, last + 1):
                     for x in ast.walk(blk[k]):
@@ -869,6 +1003,9 @@ def _named_values(fn, self_unstable=None):
                         elif isinstance(x, ast.Call) and isinstance(x.func, ast.Attribute) and x.func.attr in MUTATORS and isinstance(x.func.value, ast.Name) and x.func.value.id in rhs_names:
                             dirty = True
                         elif isinstance(x, ast.Name) and isinstance(x.ctx, ast.Store) and x.id in rhs_names:
+                            dirty = True
+                        elif content_dependent and isinstance(x, ast.Call) and _call_may_change(x, content_names):
+                            # the value depends on the CONTENTS of an object (len / element) and this call may change that object
                             dirty = True
                 # a use inside a loop body that also mutates the operands later in the same iteration would see the old value: require the loop-free case
                 if dirty:
